@@ -72,7 +72,7 @@ def _run(V, work, tier):
     wr = P.WT_ALL + [w for w in P.WRAPPERS if w[1] != "T"]
     chains = [()] + [(a,) for a in wr] + [(a, b) for a in wr for b in wr]
     if thorough:
-        chains += [tuple(rnd.choice(wr) for _ in range(3)) for _ in range(2500)]
+        chains += [tuple(rnd.choice(wr) for _ in range(3)) for _ in range(1200)]
     else:
         chains = chains[:31] + rnd.sample(chains[31:], 150)
     loops = []
@@ -125,7 +125,7 @@ def _run(V, work, tier):
     # ---- 3. constant stack / never collapsed, at sizes the model cannot reach ----
     big = []
     for ci, ch, mutual, cls in loops:
-        for n in (3, 4, 40, 41) if not thorough else (3, 4, 40, 41, 400):
+        for n in (3, 4, 40, 41) if not (thorough and ci % 5 == 0) else (3, 4, 40, 41, 400):
             big.append({"id": "%d/%d" % (ci, n), "seq": [P.src(P.loop_program(rnd, ch, n, mutual))], "cfgs": [{}, {"tro": "off"}]})
     bigr = {r["id"]: r for r in driver_json(binary, ["run"], big)}
 
@@ -191,7 +191,9 @@ def _run(V, work, tier):
     V.coverage["loop_height_laws_checked"] = nlaw
 
     # ---- 4. B2: hook traces of the same runs -------------------------------------
-    trecs = [{"id": d["id"], "seq": d["seq"], "cfgs": [{"maxsteps": 200000}, {"tro": "off", "maxsteps": 200000}]} for d in drv]
+    # (the hook traces of every program were several gigabytes in the thorough tier: a sample is recorded)
+    tdrv = drv if len(drv) <= 900 else rnd.sample(drv, 900)
+    trecs = [{"id": d["id"], "seq": d["seq"], "cfgs": [{"maxsteps": 200000}, {"tro": "off", "maxsteps": 200000}]} for d in tdrv]
     trecs += [{"id": "L" + d["id"], "seq": d["seq"], "cfgs": [{"maxsteps": 200000}]} for d in big if d["id"].endswith("/40")]
     tpath, summ = ktrace.record(work, binary, trecs, maxev=150000)
     rej, tot = ktrace.validate_all(work, tpath)
